@@ -7,7 +7,7 @@
 From Coq Require Import List NArith Bool.
 From Frugal Require Import Bytes Wire Skip Values Desc Spec Encode Decode Checks Tags State Bitset Alloc DescMap Conc LegacyDefs.
 From Frugal.gen Require Import Params.
-From Frugal.proofs Require Import GenAccess DescMapProofs ConcProofs.
+From Frugal.proofs Require Import GenAccess LockReach DescMapProofs ConcProofs.
 From Frugal.props Require Import Examples.
 From Frugal Require Import DisciplineChecks.
 From Frugal.proofs Require Import GenPools.
@@ -46,6 +46,14 @@ Proof. exact dm_refines. Qed.
 
 Theorem C08_access_discipline : access_ok = true.
 Proof. exact access_ok_holds. Qed.
+
+(* what "locked" means in access_ok: on the call graph the translator read from the source, no call
+   path from an exported entry point reaches a function of locked_fns without passing through
+   createStructDesc (which takes the registration lock).  The plain maps, the pending lists and
+   tType.Sd are touched by functions of locked_fns only (access_ok). *)
+Theorem C08_locked_only_below_create : forall q, In q locked_fns -> ~ reach entry_points all_fns edge q.
+Proof. exact (locked_not_reached entry_points all_fns edge unlocked_fns locked_fns unlocked_closed_holds locked_disjoint_holds). Qed.
+Print Assumptions C08_locked_only_below_create.
 
 Example C08_instance : finished (run (init [5; 5; 65541]%N) (concat (repeat [2; 0; 1; 0]%nat 12))) = true.
 Proof. vm_compute. reflexivity. Qed.
